@@ -4,14 +4,14 @@ from .. import model
 from . import lattice as L
 
 CLAIM = dict(
-   text="Coq theorems about the executable model of typeorder (Model/Ty.v): reflexivity, coincidence with subclassing and transitivity on classes, generic aliases below their origin and argument-wise, unions above / intersections below each member, Literal/Dependent below their bound -- all for unbounded nesting; mirror symmetry proved on the decidable domain msym (no hook-vs-hook comparison), refuted outside it by vm_compute witnesses (KF-06). KF-07 (two spellings of Exactly[A] unequal) and KF-24 (tuple[...] unrelated to tuple) were repaired in /repo with fix: commits and the theorems now cover them. The model is tied to /repo on every run by running implementation and extracted model on all ordered pairs of a generated type corpus; every asymmetric pair must fall in a known-finding class and behave as the model predicts; leaf tie: the decisions of Union / Intersection / DependentType.__type_order__ are regenerated from /repo's source on every run and proved to be the model's hooks (C12_leaf_union_hook, C12_leaf_inter_hook, C12_leaf_dep_hook); each world is swept a second time after one more abc.ABCMeta.register on the very class objects its types were built from -- the order must then follow the current subclass relation (nothing from the first sweep may be remembered).",
+   text="Coq theorems about the executable model of typeorder (Model/Ty.v): reflexivity, coincidence with subclassing and transitivity on classes, generic aliases below their origin and argument-wise, unions above / intersections below each member, Literal/Dependent below their bound -- all for unbounded nesting; mirror symmetry proved on the decidable domain msym (no hook-vs-hook comparison), refuted outside it by vm_compute witnesses (KF-06). KF-07 (two spellings of Exactly[A] unequal) and KF-24 (tuple[...] unrelated to tuple) were repaired in /repo with fix: commits and the theorems now cover them. The model is tied to /repo on every run by running implementation and extracted model on all ordered pairs of a generated type corpus; every asymmetric pair must fall in a known-finding class and behave as the model predicts; leaf tie: the decisions of Union / Intersection / DependentType.__type_order__ are regenerated from /repo's source on every run and proved to be the model's hooks (C12_leaf_union_hook, C12_leaf_inter_hook, C12_leaf_dep_hook), and so is typeorder's block for generic aliases (C12_leaf_generic_vs_generic, C12_leaf_generic_vs_class); each world is swept a second time after one more abc.ABCMeta.register on the very class objects its types were built from -- the order must then follow the current subclass relation (nothing from the first sweep may be remembered).",
    note="Trusted: Coq kernel, extraction (ExtrOcamlBasic), OCaml driver, the hand-written model (validated by the correspondence), CPython's issubclass/hasattr (tables). No axioms (all theorems closed under the global context). Partial: full mirror symmetry is false of the code (known findings).",
    technique="Coq proof (induction on fuel over a nested inductive of types) + differential correspondence impl vs extracted model", design="6 C12")
 
 THEOREMS = ["C12_total", "C12_leaf_opposite", "C12_leaf_merge", "C12_leaf_tail", "C12_refl", "C12_mirror_partial", "C12_fuel_irrelevant", "C12_classes", "C12_classes_less",
             "C12_classes_mirror", "C12_classes_trans", "C12_generic_origin", "C12_generic_args",
             "C12_union_member", "C12_inter_member", "C12_dep_bound",
-            "C12_mirror_refuted_union", "C12_mirror_refuted_inter", "C12_leaf_union_hook", "C12_leaf_inter_hook", "C12_leaf_dep_hook"]
+            "C12_mirror_refuted_union", "C12_mirror_refuted_inter", "C12_leaf_union_hook", "C12_leaf_inter_hook", "C12_leaf_dep_hook", "C12_leaf_generic_vs_generic", "C12_leaf_generic_vs_class"]
 ASSUMPTIONS = ["the generated class hierarchies satisfy the hypotheses of the theorems (issubclass reflexive, transitive, antisymmetric): checked per world, others are compared against the model only",
                "Regexp[...] is kept out of the sweep against hierarchies with protocols (issubclass(Regexp[..], Protocol) raises inside typing)"]
 
